@@ -40,8 +40,12 @@ func (g *Gen) blockingPop(keys []string, timeout string) []string {
 	switch g.r.IntN(8) {
 	case 0, 1, 2:
 		a := []string{g.pick("BLPOP", "BRPOP"), k}
-		if g.chance(3) && k2 != k {
+		if g.chance(3) {
+			// (the same key may be named more than once: one waiter, several queue entries)
 			a = append(a, k2)
+			if g.chance(3) {
+				a = append(a, k)
+			}
 		}
 		return append(a, timeout)
 	case 3:
